@@ -56,7 +56,7 @@ __CPROVER_ensures(G_ins_calls == __CPROVER_old(G_ins_calls) + 1 && G_ins_e == en
 /* state at the top of an iteration: `entry` is the head of the walked bucket (every earlier iteration unlinked the head) */
 #define STEP_STATE \
   TimingWheel W; Bucket B; TimerEntry e, nx; iora_firelist fl; int64_t now = nondet_i64(); \
-  IORA_TRUE = 1; G_fired = 0; G_erases = 0; G_ins_calls = 0; G_pool_locks = 0; G_fired_cnt[0] = 0; G_fired_cnt[1] = 0; G_fired_cnt[2] = 0; G_fired_cnt[3] = 0; \
+  IORA_TRUE = 1; GK = nondet_size_t(); GIDW = nondet_u64(); G_fired = 0; G_erases = 0; G_ins_calls = 0; G_pool_locks = 0; G_fired_cnt[0] = 0; G_fired_cnt[1] = 0; G_fired_cnt[2] = 0; G_fired_cnt[3] = 0; \
   __CPROVER_assume(TIME_OK(now) && TIME_OK(e.deadline)); \
   __CPROVER_assume(fl.n < ((size_t)1 << 60)); \
   e.prev = NULL; B.head = &e; \
@@ -145,6 +145,95 @@ void h_advance_step(void)
 }
 
 /* ================================================================================================================== */
+/* 3c. TimingWheel::cancel (sequential contract, full-domain symbolic wheel geometry) and stop()
+ *  Property: "if cancel reports success the handler never starts afterwards; if it reports failure the handler has run or will run
+ *  exactly once". Handlers are only ever taken from bucket lists (K1/C1), so "never starts" = before cancel returns the entry is out of
+ *  its bucket's list (no head/tail/neighbour points to it), out of the id map, and its handler is released.                        */
+void h_wheel_cancel(void)
+{
+  TimingWheel W; TimerEntry e, p, n, o; uint64_t id = nondet_u64();
+  IORA_TRUE = 1; GIDW = nondet_u64(); G_wheel_locks = 0; G_erases_it = 0; G_pool_locks = 0;      /* witness id: arbitrary (plain harness: globals start at 0) */
+  /* geometry: any number of levels / buckets; e lives in bucket (le, ie), the other entry o alone in a different bucket (lo, io) */
+  __CPROVER_assume(W._numWheels >= 1 && W._numWheels <= ((size_t)1 << 10) && W._ticksPerWheel >= 1 && W._ticksPerWheel <= ((size_t)1 << 20));
+  W._wheels = (WheelLevel *)malloc(W._numWheels * sizeof(WheelLevel)); __CPROVER_assume(W._wheels != NULL);
+  const size_t le = e.wheelLevel, ie = e.bucketIndex, lo = o.wheelLevel, io = o.bucketIndex;
+  __CPROVER_assume(le < W._numWheels && ie < W._ticksPerWheel && lo < W._numWheels && io < W._ticksPerWheel && !(le == lo && ie == io));   /* W3 */
+  Bucket *bk1 = (Bucket *)malloc(W._ticksPerWheel * sizeof(Bucket)), *bk2 = (Bucket *)malloc(W._ticksPerWheel * sizeof(Bucket));
+  __CPROVER_assume(bk1 != NULL && bk2 != NULL);
+  W._wheels[le].buckets = bk1; if (lo != le) W._wheels[lo].buckets = bk2;
+  Bucket *Be = &W._wheels[le].buckets[ie], *Bo = &W._wheels[lo].buckets[io];
+  IORA_CANARY("h_wheel_cancel: geometry built");
+  /* local list state of e (W2a: it is linked in the bucket its indices name): optional predecessor p, optional successor n */
+  if (nondet_bool()) { e.prev = NULL; Be->head = &e; } else { e.prev = &p; p.next = &e; __CPROVER_assume(Be->head != &e && Be->head != NULL); }
+  if (nondet_bool()) { e.next = NULL; Be->tail = &e; } else { e.next = &n; n.prev = &e; __CPROVER_assume(Be->tail != &e && Be->tail != NULL); }
+  o.prev = NULL; o.next = NULL; Bo->head = &o; Bo->tail = &o;
+  __CPROVER_assume(e.id == GIDW && e.id != InvalidTimerId && o.id != GIDW && o.id != InvalidTimerId);
+  IORA_CANARY("h_wheel_cancel: lists built");
+  G_other_entry = &o;
+  W._entryMap.present = nondet_bool(); W._entryMap.w.first = GIDW; W._entryMap.w.second = &e;       /* the map slot of this id (if pending) points to its entry; pointers are ASSIGNED (CBMC does not resolve assumed pointer equalities) */
+  const bool present0 = W._entryMap.present; const TimerEntry e0 = e; const Bucket Be0 = *Be; TimerEntry *const free0 = W._freeListHead;
+  const TimerEntry p0 = p, n0 = n;
+  IORA_CANARY("h_wheel_cancel: before call");
+
+  bool r = TimingWheel_cancel(&W, id);
+  IORA_CANARY("h_wheel_cancel: returns");
+
+  /* Y0 */ __CPROVER_assert(G_wheel_locks == 1, "Y0 cancel decides under the wheel lock");
+  if (id == GIDW) {
+    /* Y1 */ __CPROVER_assert(r == present0, "Y1 cancel reports success iff the id is pending (in the id map)");
+    if (r) {
+      IORA_CANARY("h_wheel_cancel: success");
+      /* Y2 */ __CPROVER_assert(!W._entryMap.present && G_erases_it == 1, "Y2 success: the id is erased from the id map before return");
+      /* Y3 */ __CPROVER_assert(Be->head != &e && Be->tail != &e && (e0.prev == NULL || p.next != &e) && (e0.next == NULL || n.prev != &e),
+                                "Y3 success: before return nothing in the bucket's list points to the entry any more - no later collect/cascade walk can reach it");
+      /* Y3 */ __CPROVER_assert((e0.prev == NULL ? Be->head == e0.next : (p.next == e0.next && Be->head == Be0.head)) && (e0.next == NULL ? Be->tail == e0.prev : (n.prev == e0.prev && Be->tail == Be0.tail)),
+                                "Y3 success: the neighbours are linked to each other, head/tail move only if the entry was head/tail (the rest of the list is kept: nobody else is dropped)");
+      /* Y4 */ __CPROVER_assert(e.id == InvalidTimerId && e.callback == NULL && W._freeListHead == &e && e.next == free0 && e.prev == NULL, "Y4 success: the handler is released and the entry recycled");
+    } else {
+      IORA_CANARY("h_wheel_cancel: failure");
+      /* Y5 */ __CPROVER_assert(!W._entryMap.present && e.id == e0.id && e.callback == e0.callback && e.prev == e0.prev && e.next == e0.next && Be->head == Be0.head && Be->tail == Be0.tail && W._freeListHead == free0,
+                                "Y5 failure (id not pending: already fired, canceled or never scheduled) changes nothing");
+    }
+  } else {
+    /* Y6 */ __CPROVER_assert(W._entryMap.present == present0 && e.id == e0.id && e.callback == e0.callback && e.deadline == e0.deadline && e.prev == e0.prev && e.next == e0.next
+                              && Be->head == Be0.head && Be->tail == Be0.tail && p.next == p0.next && n.prev == n0.prev, "Y6 frame: canceling another id leaves this id's entry, its links, its bucket and its map slot alone");
+  }
+}
+
+void h_wheel_stop(void)
+{
+  TimingWheel W; IORA_TRUE = 1; G_seq = 0; G_seq_join = 0; G_seq_clear = 0;
+  TimingWheel_stop(&W);
+  IORA_CANARY("h_wheel_stop: returns");
+  /* Z1 */ __CPROVER_assert(!W._accepting && G_seq_join == 1 && !G_accepting_at_join, "Z1 stop() refuses new timers BEFORE it stops the tick thread (nothing is accepted and then lost)");
+  /* Z2 */ __CPROVER_assert(G_seq_clear == 2 && !G_accepting_at_clear, "Z2 pending entries are cleared only after the tick thread was joined (no advance() runs concurrently with / after the clear)");
+  /* Z3 */ __CPROVER_assert(W._state == TimingWheelState_STOPPED, "Z3 the state becomes STOPPED");
+  /* Z4 */ __CPROVER_assert(!W._running, "Z4 the tick thread is told to stop");
+}
+
+/* ================================================================================================================== */
+/* 3d. drain(): the two decisions it takes per entry (ONE iteration each, arbitrary entry): collecting it out of its bucket, and
+ *     fire-or-cancel. (The rest of drain - local struct vector, std::sort with a lambda, the fire loop with the timeout - is outside
+ *     the extractable subset; see NOTES.md.)                                                                                       */
+void h_drain_steps(void)
+{
+  STEP_STATE
+  iora_drainvec ents; iora_cbvec disc; DrainStats st; __CPROVER_assume(ents.n < ((size_t)1 << 60) && disc.n < ((size_t)1 << 60) && st.cancelled < ((size_t)1 << 60));
+  const size_t en0 = ents.n;
+  TimingWheel_drainCollectStep(&W, &B, &cur, &ents);
+  IORA_CANARY("h_drain_steps: collected");
+  /* N1 */ __CPROVER_assert(ents.n == en0 + 1 && ents.last.id == e0.id && ents.last.callback == e0.callback && ents.last.deadline == e0.deadline, "N1 drain collects the entry with its id, handler and deadline (nothing is dropped)");
+  /* N2 */ __CPROVER_assert(cur == e0.next && B.head == e0.next && e.id == InvalidTimerId && e.callback == NULL && W._freeListHead == &e, "N2 the entry leaves its bucket and is recycled; the walk continues with the successor");
+  /* N3 */ __CPROVER_assert(G_fired == 0, "N3 collecting fires nothing yet");
+  DrainEntry de = ents.last; const size_t dn0 = disc.n, c0 = st.cancelled, f0 = fl.n;
+  TimingWheel_drainDecideStep(&W, &de, now, &fl, &disc, &st);
+  IORA_CANARY("h_drain_steps: decided");
+  /* N4 */ __CPROVER_assert((G_fired == 1) == (e0.deadline <= now) && G_fired <= 1, "N4 not early: drain fires an entry iff its deadline <= now");
+  /* N5 */ __CPROVER_assert(G_fired == 1 ? (fl.n == f0 + 1 && G_fired_id == e0.id && G_fired_cb == e0.callback && disc.n == dn0 && st.cancelled == c0)
+                                         : (fl.n == f0 && disc.n == dn0 + 1 && st.cancelled == c0 + 1), "N5 every entry is either handed to the fire list (its own id/handler) or discarded AND counted as cancelled - exactly one of the two");
+}
+
+/* ================================================================================================================== */
 /* 4. bounded stand-in: whole advance() (collectFromBucket + cascadeDown + insertEntry + list ops, all extracted text) on a
  *    2-level wheel of 4 buckets, tick 10, with up to 3 entries placed by the real insertEntry                            */
 #define NB 4
@@ -214,6 +303,27 @@ void h_bounded_advance(void)
   b_check(n, now0 + el);
   /* S10 release rules on the whole call: level 0 moved one tick; level 1 moved one cascade step iff level 0 wrapped (level 2 does not exist) */
   __CPROVER_assert(BL[0].currentTick == cur0 + 1 && BL[1].currentTick == cur1 + ((((cur0 + 1) & (NB - 1)) == 0) ? 1 : 0), "S10 currentTick of level 0 advances by one, of level 1 by one iff level 0 wrapped");
+}
+
+/* bounded stand-in: clearAllEntries (the body of stop()/reset()/~TimingWheel) on the same small wheel */
+void h_bounded_clear(void)
+{
+  size_t n = nondet_size_t(), cur0 = nondet_size_t(), cur1 = nondet_size_t(); int64_t delay[3];
+  for (unsigned i = 0; i < NE; i++) { delay[i] = nondet_i64(); __CPROVER_assume(delay[i] >= -20 && delay[i] <= 700); }
+  __CPROVER_assume(n <= NE && cur0 < 2 * NB && cur1 < NB);
+  b_setup(n, delay, cur0, cur1, 1000);
+  for (unsigned i = 0; i < NE; i++) if (i < n && nondet_bool()) BE[i].callback = NULL;      /* schedule(delay, nullptr) is legal: an entry without a handler */
+  G_map_n = n; G_map_ents[0] = &BE[0]; G_map_ents[1] = &BE[1 % NE]; G_map_ents[2] = &BE[2 % NE]; G_map_clears = 0; G_wheel_locks = 0;
+  TimingWheel_clearAllEntries(&BW);
+  IORA_CANARY("h_bounded_clear: returns");
+  unsigned heads = 0;
+  B_CHK(0, 0) B_CHK(0, 1) B_CHK(0, 2) B_CHK(0, 3) B_CHK(1, 0) B_CHK(1, 1) B_CHK(1, 2) B_CHK(1, 3)
+  /* V1 */ __CPROVER_assert(heads == 0, "V1 after clearAllEntries every bucket is empty: nothing is left for a later advance() to fire");
+  /* V2 */ __CPROVER_assert(G_map_n == 0 && G_map_clears == 1 && G_wheel_locks == 1, "V2 the id map is cleared, under the wheel lock");
+  for (unsigned i = 0; i < NE; i++) if (i < n) {
+    /* V3 */ __CPROVER_assert(BE[i].id == InvalidTimerId && BE[i].callback == NULL, "V3 every pending entry is recycled and its handler released (moved out for destruction outside the lock)");
+  }
+  /* V4 */ __CPROVER_assert(G_fired == 0, "V4 clearAllEntries fires nothing");
 }
 
 #ifdef IORA_SEARCH
